@@ -65,10 +65,47 @@ def first_chars_and_min_len(accepted, mandatory, prefixes):
 
 
 def check_c13(ctx, led):
+    """The semantic analysis (rules_text_sem: symbolic candidate lists, constructors replaced by the
+    grammar) decides the candidate loop and supplies the pattern that is searched; the idiom rules
+    for the loop are then an informational cross-check.  They decide only when the function cannot
+    be interpreted."""
+    from .rules_parse import InfoLedger
+    from .rules_text_sem import check_text_semantics
+
     f = ctx.repo.function("parser", "parse_cvss_from_text")
-    module = f.module
+    try:
+        ts, n_sem = check_text_semantics(ctx, led)
+    except AnalysisError as e:
+        if e.rule == "C13.regex":
+            raise
+        led.info("C13.sem", "parser.parse_cvss_from_text", "cvss/parser.py", "the function could not be interpreted over symbolic candidates (%s): the idiom rules decide instead" % e.message)
+        # the idiom rules are stricter than the property (they know one way of writing the loop)
+        # and look at the loop only: neither their silence nor their complaints decide a function
+        # the semantic analysis could not follow.  They are recorded as information.
+        try:
+            call, pat = find_regex(ctx, f)
+            check_regex(ctx, InfoLedger(led), f, call, f.module, pat, getattr(find_regex, "flags", set()))
+            check_loop_idioms(ctx, InfoLedger(led), f)
+        except AnalysisError:
+            pass
+        raise e
+    led.count("candidate_sequences", n_sem)
+    pats = set((p, tuple(sorted(fl))) for p, fl, _, _ in ts.patterns)
+    if len(pats) != 1:
+        raise AnalysisError("C13.regex", "the runs search %d different patterns" % len(pats), f.node, f.module)
+    pat, flags, node, module = ts.patterns[0]
+    if set(flags) - {"IGNORECASE", "ASCII"}:
+        raise AnalysisError("C13.regex", "regex flags %s are not modelled" % sorted(flags), node, module)
+    check_regex(ctx, led, f, node, module, pat, set(flags))
+    try:
+        check_loop_idioms(ctx, InfoLedger(led), f)
+    except AnalysisError as e:
+        led.info("C13.idioms", "parser.parse_cvss_from_text", "cvss/parser.py", "idiom rules not applicable: %s" % e.message)
+    return max(2, len(ts.ctor_sites))
+
+
+def check_regex(ctx, led, f, call, module, pat, flags):
     where = module.where(f.node)
-    call, pat = find_regex(ctx, f)
     ck_rx = "parser.parse_cvss_from_text::regex"
     tree = rx.parse(pat)
     led.count("regex_nodes", len(list(tree)))
@@ -101,7 +138,6 @@ def check_c13(ctx, led):
     n_max = None if items[1][1][1] is sre_c.MAXREPEAT else items[1][1][1]
     univ = [chr(c) for c in range(32, 127)]
     cls = rx.charset_of(items[1][1][2][0][1], univ + [rx.OTHER])
-    flags = getattr(find_regex, "flags", set())
     if "IGNORECASE" in flags:
         cls = set(cls)
         for c in list(cls):
@@ -209,6 +245,13 @@ def check_c13(ctx, led):
             "a delimiter %s matched by the prefix group can be followed by %s, which may start a valid vector: the vector is "
             "then swallowed into a longer, invalid candidate" % (sorted(nonclass)[:3], sorted(gsets[i + 1] & firsts)[:3]),
         )
+
+
+def check_loop_idioms(ctx, led, f):
+    module = f.module
+    where = module.where(f.node)
+    info3 = parse_summary(ctx, 3)
+    acc2 = parse_summary(ctx, 2)["accepted"]
     # ---- candidate loop
     loops = [n for n in ast.walk(f.node) if isinstance(n, ast.For)]
     ctor_calls = []
@@ -249,7 +292,7 @@ def check_c13(ctx, led):
         covered = set()
         for t in tries:
             for h in t.handlers:
-                for nm in G.handler_names(h):
+                for nm in G.handler_names(h, module):
                     base = nm.split(".")[-1]
                     for ex in needed:
                         if base in ("*", "Exception", "BaseException") or base == ex or base in anc.get(ex, []):
